@@ -167,7 +167,7 @@ def main():
                     if " VIOL" in l:
                         flagged_n += 1
                         if len(first_flags) < 400:
-                            first_flags.append({"op": s["name"] + " " + " ".join(sub(s["scenario"])[1:]), "go": l[:600], "lean": "(scenario: no model line)"})
+                            first_flags.append({"op": s["name"] + " " + " ".join(sub(s["scenario"])[1:]), "go": l[:6000], "lean": "(scenario: no model line)"})
                 if rc != 0 and not (rc == 66 and any(" VIOL" in l for l in lines)):
                     broken.append({"kind": "scenario-crash", "what": "%s exited with %d: %s" % (s["name"], rc, err)})
                 if not lines:
